@@ -19,7 +19,8 @@ from .core import run_seed, canon, log_digest, RunTimeout
 
 PROPS = ["C03", "C04", "C05", "C07", "C08", "C09", "C13", "C15", "C16", "C17",
          "C18", "C20"]
-RUN_TIMEOUT_S = 30
+RUN_TIMEOUT_S = 30          # CPU seconds per run
+RUN_WALL_TIMEOUT_S = 600     # wall-clock fallback per run
 
 
 def _alarm(signum, frame):
@@ -38,6 +39,7 @@ def _worker_init():
   except Exception:
     pass
   signal.signal(signal.SIGALRM, _alarm)
+  signal.signal(signal.SIGPROF, _alarm)
 
 
 def execute(pid, plan, keep_events=False):
@@ -50,17 +52,23 @@ def execute(pid, plan, keep_events=False):
   import warnings
   warnings.simplefilter("ignore")   # oracles observe warnings explicitly
   t0 = time.time()
+  # per-run limit in CPU seconds of this process (robust against a loaded
+  # machine) plus a much longer wall-clock fallback for blocked runs
   old = signal.signal(signal.SIGALRM, _alarm)
-  signal.alarm(RUN_TIMEOUT_S)
+  oldp = signal.signal(signal.SIGPROF, _alarm)
+  signal.setitimer(signal.ITIMER_PROF, RUN_TIMEOUT_S)
+  signal.alarm(RUN_WALL_TIMEOUT_S)
   try:
     res = mod.run_plan(plan)
   except RunTimeout:
-    res = dict(harness_error="timeout after %ds" % RUN_TIMEOUT_S)
+    res = dict(harness_error="timeout after %ds cpu / %ds wall" % (RUN_TIMEOUT_S, RUN_WALL_TIMEOUT_S))
   except Exception:
     res = dict(harness_error=traceback.format_exc()[-1500:])
   finally:
+    signal.setitimer(signal.ITIMER_PROF, 0)
     signal.alarm(0)
     signal.signal(signal.SIGALRM, old)
+    signal.signal(signal.SIGPROF, oldp)
   res.setdefault("violation", None)
   res.setdefault("inconclusive", [])
   res.setdefault("cov", {})
@@ -122,7 +130,7 @@ def explore(pid, vseed, tier, n_runs, jobs, budget_s, chunk=8, start=0):
         f = ex.submit(_task, (pid, vseed, tier, c, want_samples))
         pending[f] = c
     submit_more()
-    hard_deadline = t0 + budget_s + RUN_TIMEOUT_S * chunk + 30
+    hard_deadline = t0 + budget_s + RUN_WALL_TIMEOUT_S + 60
     while pending:
       done, _ = cf.wait(list(pending), timeout=5,
                         return_when=cf.FIRST_COMPLETED)
